@@ -6,7 +6,7 @@ from typing import List, Optional, Tuple
 
 from ..model import AnalysisError
 from ..rules.gvn import GVN, f_key
-from ..rules.match import const_num, m_arrcall, m_binop, m_cmp, m_method, m_where
+from ..rules.match import const_num, m_arrcall, m_binop, m_cmp, m_method, m_where, sum_terms
 from ..rules.siblings import evaluate, swap_map, trial_evaluator
 from ..rules.trialsib import HD, WD, Sib, key, nelec
 from ..symex import (Evaluator, array_fn, call_parts, const, func_name, getitem, is_const, match_scan, mk,
@@ -355,6 +355,54 @@ def fock_sibling(ctx, s: Sib):
               fr_[0], fu, u.fi, hyp_r, hyp_b=hyp_u, what="dm_up = dm_dn = dm/2, h1[0] == h1[1]")
 
 
+def fock_symmetric_in_h1(ctx, s: Sib):
+    """SYM-1.  The custom derivative rule of linalg_utils._eigh contracts the *raw* tangent of its argument
+    (dv ~ F o (v^T dA v)), which is the derivative of the eigen-decomposition only for a symmetric perturbation dA
+    (jnp.linalg.eigh itself silently symmetrises its input, so the primal hides an asymmetry).  The one-body matrix
+    that carries the coupling into the SCF must therefore be symmetrised before it enters the Fock matrix: the Fock
+    matrix is invariant under h1[s] -> h1[s]^T."""
+    for cls in ("rhf", "uhf"):
+        e = s.E(cls, "optimize")
+        out = strip_wrappers(getitem(e.result, const("mo_coeff")))
+        scans = [t for t in subterms(out) if t.op == "call" and match_scan(t) is not None]
+        if len(scans) != 1:
+            ctx.rep.note(f"{cls}.optimize: SCF scan not found; h1-symmetry rule not applicable")
+            continue
+        C, x = sym("§dm"), sym("§x")
+        body = s.ev.open_closure(match_scan(scans[0])[0], [C, x])
+        focks = sorted([call_parts(t)[1][0] for t in subterms(body) if t.op == "call" and
+                        (func_name(t) or "").split(".")[-1] in ("_eigh", "eigh") and call_parts(t)[1]], key=lambda t: t.uid)
+        if not focks:
+            ctx.rep.note(f"{cls}.optimize: no eigh of a Fock matrix in the SCF step; h1-symmetry rule not applicable")
+            continue
+        hyp = {key(HD, "h1", 0): mk("attr", key(HD, "h1", 0), "T"), key(HD, "h1", 1): mk("attr", key(HD, "h1", 1), "T")}
+        h1_root = key(HD, "h1")
+
+        def reads_h1_values(t) -> bool:
+            """does t depend on the entries of ham_data['h1'] (not merely on its shape)?"""
+            seen, stack = set(), [t]
+            while stack:
+                x = stack.pop()
+                if not hasattr(x, "op") or x.uid in seen:
+                    continue
+                seen.add(x.uid)
+                if x.op == "attr" and x.args[1] in ("shape", "size", "ndim", "dtype"):
+                    continue
+                if x is h1_root:
+                    return True
+                stack.extend(a for a in x.args if hasattr(a, "op"))
+            return False
+
+        for i, f in enumerate(focks):
+            parts = [x for _, x in sum_terms(strip_wrappers(f)) if reads_h1_values(x)]
+            if not parts:
+                ctx.rep.note(f"{cls}.optimize: Fock matrix #{i} has no summand built from h1; h1-symmetry rule not applicable")
+                continue
+            for x in parts:
+                s.cmp("SYM-1", f"{cls}.optimize: Fock matrix #{i} sees h1 only through its symmetric part (h1 + h1^T) / 2",
+                      x, x, e.fi, None, hyp_b=hyp, what="invariant under h1[s] -> h1[s]^T")
+
+
 def init_density_sibling(ctx, s: Sib):
     """SIB-2: the SCF scans start from the trial's own density.  With the hypothesis used for the Fock sibling
     (dm_up = dm_dn = dm / 2) the closed-shell starting density of rhf.optimize is the sum of the two spin blocks
@@ -392,3 +440,4 @@ def run(ctx):
     symmetry(ctx, s)
     fock_sibling(ctx, s)
     init_density_sibling(ctx, s)
+    fock_symmetric_in_h1(ctx, s)
